@@ -5,16 +5,17 @@ Import ListNotations.
 (* C02: encrypted load-to-RAM classes (RT5xx/6xx): the exported image passes the ROM model -- header HMAC, certificate
    block, signature over exactly the bytes before it -- and the ROM's reassembly of the ciphertext (encrypted header copy
    behind the certificate block | bytes 56..63 of the header | body | encrypted TrustZone) decrypted by AES-CTR with the IV
-   stored behind the header copy, under AES-ECB(master key, 1|0^15 ; 2|0^15) (or the user key when a key store is carried),
-   is exactly the plaintext image the builder collected (application with IVT ++ TrustZone data).  Uses the CTR involution
-   of CryptoRef.  The hypothesis ks_nonempty excludes the recorded finding C02-F2 (key store file without content). *)
+   stored behind the header copy is exactly the plaintext image the builder collected (application with IVT ++ TrustZone
+   data).  The ROM's image key follows the configured key source r_ks: AES-ECB(master key, 1|0^15 ; 2|0^15) when no key
+   store is configured, the user key when the key source is KEYSTORE (with or without embedded key-store data).  Uses the
+   CTR involution of CryptoRef. *)
 Theorem enc_roundtrip :
   forall (sign : list N -> list N) (c : mbi_class) (x : mbi) (img : list N) (cfg : rom_cfg) (keys : rom_keys)
          (pre post : list N) (sg : nat) (certs table : list (list N)),
     k_enc c = true -> wf_input x -> m_cert x = Some (CertV1 pre post sg) -> cb_v1_ok pre post certs table ->
     rk_rkth keys = sha256 (concat table) -> r_cb cfg = CbV1 -> r_hmac cfg = true -> In 3%Z (r_types cfg) ->
-    tz_ok (r_tzsize cfg) x -> ks_wf x -> ks_nonempty x -> m_hmac x = Some (rk_user keys) -> wf_bytes (rk_user keys) ->
-    (forall m, length (sign m) = sg) -> (0 < sg)%nat ->
+    tz_ok (r_tzsize cfg) x -> ks_wf x -> r_ks cfg = ks_truthy_obj (m_ks x) -> m_hmac x = Some (rk_user keys) ->
+    wf_bytes (rk_user keys) -> (forall m, length (sign m) = sg) -> (0 < sg)%nat ->
     export_mbi (real_crypto sign) c x = Ok img ->
     exists raw msg, let s := msg ++ sign msg in
       collect c x = Ok raw /\
